@@ -686,6 +686,7 @@ func runC10(c *Ctx) {
 		}
 		c.Eval(true, hx(raw)+strings.Join(kinds, ","))
 	})
+	runC10S3(c) // extension round 3: c10_s3.go
 }
 
 // hostileLen reports whether raw could announce a 4/8-byte length or count (tags 5..8), which
